@@ -441,4 +441,135 @@ def getOnShardLB (c : Client) (st : Streams) (rf : Nat) (hb : Int) (ident : Stri
     if isSelf c size period qnow then readGet (c.rcfg rf hb) c.idx c.desc key op now rf
     else subGet (c.rcfg rf hb) (computeMembers c st ident size period qnow) key op now
 
+/-! ## the lock sections of the real code as a labelled transition system
+
+`Ring.ShuffleShard` consists of THREE separate critical sections of `r.mtx` (and so does
+`ShuffleShardWithLookback`):
+
+1. `getCachedShuffledSubring` — `RLock`: cache look-up; on a hit the cached sub-ring is refreshed (states and
+   timestamps from the latest descriptor) and returned (`lookShard`);
+2. `shuffleShard` / `filterOutReadOnlyInstances` — a second `RLock` acquisition: the sub-ring is computed from the
+   indexes as they are NOW (the cache is not consulted again) and remembers `r.lastTopologyChange` (`compShard`);
+3. `setCachedShuffledSubring` — `Lock`: stored only if `r.lastTopologyChange.Equal(subring.lastTopologyChange)`
+   (`storeShardT`).
+
+Between any two of them the watch callback may run `updateRingState` (whose write section replaces the descriptor
+and, on a topology change, re-indexes, stamps `lastTopologyChange := time.Now()` and drops both caches) and other
+readers may run their sections. `beginShard` of the coarser model above is section 1 directly followed (on a miss)
+by section 2; here they are separate events, so a reader may compute although another reader has filled the cache
+in between, and overwrite that entry.
+
+**The clock.** `lastTopologyChange` is a wall-clock reading in the code. `clk e` is the reading `time.Now()` gave the
+`e`-th re-indexing (`clk 0` = the zero `time.Time` of a ring that was never indexed); the guard of section 3 compares
+READINGS (`clk sub.epoch == clk c.epoch`), not the counters. The theorems hold for every injective `clk` (a clock
+that advances between two re-indexings); `PC13.clock_collision_witness` shows what happens otherwise. -/
+
+/-- reader section 1, `getCachedShuffledSubring`. -/
+def lookShard (c : Client) (ident : String) (size : Int) : Option Desc × Client :=
+  let k : Key := ⟨ident, size⟩
+  match lookupAssoc k c.cache with
+  | some s =>
+    let s' := refresh c.desc s
+    (some s'.members, { c with cache := setAssoc k s' c.cache })
+  | none => (none, c)
+
+/-- reader section 2, `shuffleShard` / `filterOutReadOnlyInstances`: the answer and, unless the ring itself is
+returned, the sub-ring to be stored by section 3. -/
+def compShard (c : Client) (st : Streams) (ident : String) (size : Int) : Desc × Option Sub :=
+  if isSelf c size 0 0 then (c.desc, none)
+  else
+    let s : Sub := ⟨computeMembers c st ident size 0 0, c.epoch⟩
+    (s.members, some s)
+
+/-- reader section 3, `setCachedShuffledSubring`, the guard comparing clock readings. -/
+def storeShardT (clk : Nat → Nat) (c : Client) (k : Key) (s : Sub) : Client :=
+  if clk s.epoch == clk c.epoch then { c with cache := setAssoc k s c.cache } else c
+
+/-- section 1 of `ShuffleShardWithLookback`, `getCachedShuffledSubringWithLookback`. -/
+def lookShardLB (c : Client) (ident : String) (size period now : Int) : Option Desc × Client :=
+  let k : LKey := ⟨ident, size, period⟩
+  let w := now - period
+  let hit : Option LBEntry :=
+    match lookupAssoc k c.lbCache with
+    | some e => if w < e.after || w > e.before then none else some e
+    | none => none
+  match hit with
+  | some e =>
+    let s' := refresh c.desc e.sub
+    (some s'.members, { c with lbCache := setAssoc k { e with sub := s' } c.lbCache })
+  | none => (none, c)
+
+/-- section 2 of `ShuffleShardWithLookback` (the pending store remembers the window start). -/
+def compShardLB (c : Client) (st : Streams) (ident : String) (size period now : Int) : Desc × Option (Sub × Int) :=
+  if isSelf c size period now then (c.desc, none)
+  else
+    let s : Sub := ⟨computeMembers c st ident size period now, c.epoch⟩
+    (s.members, some (s, now - period))
+
+/-- section 3 of `ShuffleShardWithLookback`, `setCachedShuffledSubringWithLookback`. -/
+def storeShardLBT (clk : Nat → Nat) (c : Client) (k : LKey) (s : Sub) (w : Int) : Client :=
+  if clk s.epoch == clk c.epoch then
+    let store : Bool :=
+      match lookupAssoc k c.lbCache with
+      | some e => decide (e.after < w)
+      | none => true
+    if store then { c with lbCache := setAssoc k ⟨s, w, validBefore s.members w⟩ c.lbCache } else c
+  else c
+
+/-- the events: one per critical section. -/
+inductive Ev
+  | upd (d : Desc)                                   -- writer: `updateRingState`
+  | look (ident : String) (size : Int)               -- reader section 1
+  | comp (ident : String) (size : Int)               -- reader section 2 (also without a preceding miss)
+  | store (n : Nat)                                  -- reader section 3 for the n-th computed sub-ring (any order, repeatedly)
+  | lookL (ident : String) (size period now : Int)
+  | compL (ident : String) (size period now : Int)
+  | storeL (n : Nat)
+  | clean (ident : String)                           -- `CleanupShuffleShardCache`
+  | qS (ident : String) (size : Int)                 -- an undisturbed `ShuffleShard` (sections 1-3 back to back)
+  | qL (ident : String) (size period now : Int)
+  deriving Repr
+
+structure LState where
+  c : Client
+  pend : List (Key × Sub) := []
+  pendL : List (LKey × Sub × Int) := []
+
+def lstep (clk : Nat → Nat) (st : Streams) (s : LState) : Ev → LState
+  | .upd d => { s with c := update s.c d }
+  | .look i sz => { s with c := (lookShard s.c i sz).2 }
+  | .comp i sz =>
+    match (compShard s.c st i sz).2 with
+    | some sub => { s with pend := s.pend ++ [(⟨i, sz⟩, sub)] }
+    | none => s
+  | .store n =>
+    match s.pend[n]? with
+    | some (k, sub) => { s with c := storeShardT clk s.c k sub }
+    | none => s
+  | .lookL i sz p n => { s with c := (lookShardLB s.c i sz p n).2 }
+  | .compL i sz p n =>
+    match (compShardLB s.c st i sz p n).2 with
+    | some (sub, w) => { s with pendL := s.pendL ++ [(⟨i, sz, p⟩, sub, w)] }
+    | none => s
+  | .storeL n =>
+    match s.pendL[n]? with
+    | some (k, sub, w) => { s with c := storeShardLBT clk s.c k sub w }
+    | none => s
+  | .clean i => { s with c := cleanup s.c i }
+  | .qS i sz => { s with c := (queryShard s.c st i sz).2 }
+  | .qL i sz p n => { s with c := (queryShardLB s.c st i sz p n).2 }
+
+/-- the sub-ring (its members) an event hands to its caller, if any: a hit of section 1, the result of section 2,
+the result of an undisturbed query. -/
+def lans (st : Streams) (s : LState) : Ev → Option Desc
+  | .look i sz => (lookShard s.c i sz).1
+  | .comp i sz => some (compShard s.c st i sz).1
+  | .lookL i sz p n => (lookShardLB s.c i sz p n).1
+  | .compL i sz p n => some (compShardLB s.c st i sz p n).1
+  | .qS i sz => some (queryShard s.c st i sz).1
+  | .qL i sz p n => some (queryShardLB s.c st i sz p n).1
+  | _ => none
+
+def lrun (clk : Nat → Nat) (st : Streams) (s : LState) (evs : List Ev) : LState := evs.foldl (lstep clk st) s
+
 end C13
